@@ -23,6 +23,15 @@ fn routing(name: &str, pkg: &str) -> Service {
     b.method(m("m_upper", "M")).method(m("m_two", "M2")).method(m("m_lower", "m")).build()
 }
 
+/// a service whose full method paths are 63, 64, 65, 128, 129 and 300 bytes long (plus the three short ones)
+fn routing_long() -> Service {
+    let m = |n: &str, r: &str| Method::builder().name(n).route_name(r)
+        .input_type("Vec<u8>").output_type("Vec<u8>").codec_path("crate::codec::RawCodec").build();
+    Service::builder().name("ServiceWithAVeryLongName").package("lab.routing.longnames.v1")
+        .method(m("m_upper", "M")).method(m("m_two", "M2")).method(m("m_lower", "m"))
+        .method(m("l63", "LongMethodNa")).method(m("l64", "LongMethodNam")).method(m("l65", "LongMethodName")).method(m("l128", "LongMethodNameLongMethodNameLongMethodNameLongMethodNameLongMethodNameLongMet")).method(m("l129", "LongMethodNameLongMethodNameLongMethodNameLongMethodNameLongMethodNameLongMeth")).method(m("l300", "LongMethodNameLongMethodNameLongMethodNameLongMethodNameLongMethodNameLongMethodNameLongMethodNameLongMethodNameLongMethodNameLongMethodNameLongMethodNameLongMethodNameLongMethodNameLongMethodNameLongMethodNameLongMethodNameLongMethodNameLongMethodN")).build()
+}
+
 fn main() {
     println!("cargo:rerun-if-changed=build.rs");
     Builder::new().compile(&[
@@ -33,5 +42,6 @@ fn main() {
         routing("S", ""),
         routing("S", "a.b"),
         routing("s", "a"),
+        routing_long(),
     ]);
 }
